@@ -140,6 +140,9 @@ pub struct Outcome {
     pub unlocked_markers: Vec<u64>,
     /// certificates that are script-locked by the ledger's rules and were admitted by plain add() (no witness)
     pub unwitnessed_locked: Vec<Vec<u8>>,
+    /// keys the caller declared as signers on the inputs builder (TxInputsBuilder::add_required_signer(s)): they are not
+    /// written into the body, but the caller announced that they sign, and the size prediction counts them
+    pub declared_signers: Vec<usize>,
     /// certificates in the order of their first successful insertion
     pub cert_order: Vec<Vec<u8>>,
 }
@@ -409,6 +412,7 @@ struct Run<'a> {
     cert_history: Vec<(Certificate, usize, u8, usize)>,
     unlocked_markers: Vec<u64>,
     unwitnessed_locked: Vec<Vec<u8>>,
+    declared_signers: Vec<usize>,
     hints_plain: bool,
 }
 
@@ -1119,8 +1123,30 @@ impl<'a> Run<'a> {
             0 => {
                 let k = self.t.choose(6);
                 let h = self.w.keys[k].hash.clone();
-                self.tb.add_required_signer(&h);
-                self.ops.push(format!("required_signer(k{})", k));
+                match self.ops.len() % 4 {
+                    // declared on the inputs builder instead (one key / a set of one): counted as a signer, not written
+                    // into the body
+                    2 => {
+                        self.ib.add_required_signer(&h);
+                        let ib = self.ib.clone();
+                        self.tb.set_inputs(&ib);
+                        self.declared_signers.push(k);
+                        self.ops.push(format!("inputs_builder.add_required_signer(k{})", k));
+                    }
+                    3 => {
+                        let mut set = Ed25519KeyHashes::new();
+                        set.add(&h);
+                        self.ib.add_required_signers(&set);
+                        let ib = self.ib.clone();
+                        self.tb.set_inputs(&ib);
+                        self.declared_signers.push(k);
+                        self.ops.push(format!("inputs_builder.add_required_signers(k{})", k));
+                    }
+                    _ => {
+                        self.tb.add_required_signer(&h);
+                        self.ops.push(format!("required_signer(k{})", k));
+                    }
+                }
             }
             1 => {
                 let k = self.t.choose(6);
@@ -1366,6 +1392,7 @@ pub fn run(tape: &[u8], focus: Focus) -> Option<Outcome> {
         cert_history: Vec::new(),
         unlocked_markers: Vec::new(),
         unwitnessed_locked: Vec::new(),
+        declared_signers: Vec::new(),
         hints_plain: true,
     };
     // at least one key input first, so that most scenarios have something to balance
@@ -1672,6 +1699,7 @@ pub fn run(tape: &[u8], focus: Focus) -> Option<Outcome> {
         required_signer_hints_plain: r.hints_plain,
         unlocked_markers: r.unlocked_markers,
         unwitnessed_locked: r.unwitnessed_locked,
+        declared_signers: r.declared_signers,
         cert_order: r.cert_seen,
     })
 }
